@@ -2,7 +2,7 @@
    Only statements; every proof is `exact <lemma>`.  The specification
    (clmul, pmod, fmul, fpow) is in Model/GF16.v, the implementation model
    (T_Times … Poly64_Div, following gf2p16/t.go and gf2/poly64.go) beside it. *)
-From Gopar Require Import Model.Base Model.GF16 Proofs.GF16Facts Proofs.GF16Tables.
+From Gopar Require Import Model.Base Model.GF16 Proofs.GF16Facts Proofs.GF16Tables Proofs.Poly64.
 Open Scope N_scope.
 
 (* none of the three panics of init() fires, and no index leaves the tables *)
@@ -36,6 +36,24 @@ Print Assumptions C08_div_zero.
 Theorem C08_pow : forall a p, a < 65536 -> p < 2 ^ 32 -> T_Pow a p = fpow a p.
 Proof. exact T_Pow_spec. Qed.
 Print Assumptions C08_pow.
+
+(* GF(2)[x]: product modulo x^64, Euclidean division q*d + r = p with deg r < deg d
+   (and q*d itself does not overflow 64 bits), division by zero panics *)
+Theorem C08_poly_times : forall p q, p < 2 ^ 64 -> q < 2 ^ 64 ->
+  Poly64_Times p q = N.land (clmul p q) (2 ^ 64 - 1).
+Proof. exact Poly64_Times_correct. Qed.
+Print Assumptions C08_poly_times.
+
+Theorem C08_poly_div : forall p d, p < 2 ^ 64 -> 0 < d < 2 ^ 64 ->
+  exists q r, Poly64_Div p d = Ok (q, r) /\
+    N.lxor (clmul q d) r = p /\ (r = 0 \/ N.log2 r < N.log2 d) /\
+    Poly64_Times q d = clmul q d.
+Proof. exact Poly64_Div_correct. Qed.
+Print Assumptions C08_poly_div.
+
+Theorem C08_poly_div_zero : forall p, Poly64_Div p 0 = Panic PExplicit.
+Proof. exact Poly64_Div_zero. Qed.
+Print Assumptions C08_poly_div_zero.
 
 (* the field laws the other properties build on *)
 Theorem C08_field_laws : forall a b c, a < 65536 -> b < 65536 -> c < 65536 ->
